@@ -1,5 +1,6 @@
 //! nv — bounded-exhaustive checks of the neurons library.  usage: nv <Cnn> <quick|thorough> | nv <Cnn> --replay <file>
 #![allow(dead_code)]
+mod c05conf;
 mod gen;
 mod json;
 mod libnet;
@@ -37,6 +38,29 @@ fn main() {
         std::process::exit(2);
     }
     let id = args[1].clone();
+    if id == "C05conf" {
+        util::silence_panics();
+        let out = args.get(3).cloned().unwrap_or_else(|| "/verif/target/c05-conf.json".to_string());
+        std::process::exit(c05conf::conformance(args[2] == "thorough", &out));
+    }
+    if id == "C05fallback" {
+        util::silence_panics();
+        util::divert_stdout();
+        let root = std::env::var("VERIF_ROOT").unwrap_or_else(|_| "/verif".to_string());
+        let seed: u64 = std::env::var("VERIF_SEED").ok().and_then(|s| s.parse::<i64>().ok()).map(|x| x as u64).unwrap_or(0);
+        let conf = args.get(3).cloned().unwrap_or_else(|| "/verif/target/c05-conf.json".to_string());
+        std::process::exit(c05conf::fallback(args[2] == "thorough", &conf, &root, seed));
+    }
+    if id == "C05ext" {
+        let reps: usize = args[2].parse().unwrap_or(2);
+        let part_reps: usize = args.get(3).and_then(|s| s.parse().ok()).unwrap_or(100);
+        // the library prints from learn(): keep our JSON on the real stdout only
+        util::silence_panics();
+        util::divert_stdout();
+        let j = c05conf::external(reps, part_reps);
+        say!("{}", j.dump());
+        std::process::exit(0);
+    }
     let reg = registry();
     let def = match reg.iter().find(|d| d.id == id) {
         Some(d) => d,
